@@ -644,7 +644,7 @@ int main(int argc, char **argv) {
   for (std::string prof : {"general", "rowhigh", "obstruction", "polarity", "dense", "crowded", "big20"})
     add("c11.relegalize." + prof, [prof](uint64_t, Rng &rng, CaseResult &r) { flowCase(rng, r, prof, O_C11); });
   add("c11.constructed", [](uint64_t, Rng &rng, CaseResult &r) { c11Constructed(rng, r); });
-  for (std::string prof : {"general", "degenerate", "big", "wide", "dense", "multirow", "obstruction", "floating"})
+  for (std::string prof : {"general", "degenerate", "big", "wide", "dense", "multirow", "obstruction", "floating", "blocked"})
     add("c07." + prof, [prof](uint64_t, Rng &rng, CaseResult &r) { c07Case(rng, r, prof, false); }, 120);
   add("c07.paramfuzz", [](uint64_t, Rng &rng, CaseResult &r) { c07Case(rng, r, "general", true); }, 120);
   add("c10.enum", [](uint64_t, Rng &rng, CaseResult &r) { c10Case(rng, r); }, 60);
